@@ -2,10 +2,11 @@ CONSTANTS
   Kinds = {1, 2, 3}
   Addrs = {0, 1, 2}
   Lens = {1}
-  MaxSecs = 4
+  MaxSecs = 3
   Vcpus = {1}
   Roms = {2, 5, 7}
   Bases = {"zero"}
+  Metas = {0, 1, 2}
 SPECIFICATION Spec
 INVARIANTS C04_OrderRomSectionsVmsas C04_AcceptedHaveMandatory Emit
 CHECK_DEADLOCK FALSE
